@@ -27,6 +27,7 @@ func main() {
 	runMulti(f, res, drv)
 	runSched(f, res, drv)
 	runBooking(f, res, drv)
+	runGenID(f, res, drv)
 	if err := res.Write(f.Out); err != nil {
 		lib.Fatal(err)
 	}
@@ -86,6 +87,14 @@ func replay(f lib.Flags) int {
 		}
 		for _, line := range c.run(m) {
 			fmt.Println("replay booking:", line)
+		}
+	case "genid":
+		var g genCase
+		if err := json.Unmarshal(raw, &g); err != nil {
+			lib.Fatal(err)
+		}
+		for _, line := range g.run(m).Trace {
+			fmt.Println("replay genid:", line)
 		}
 	case "sched":
 		var c schedCase
